@@ -76,21 +76,30 @@ class ApiWorld(ClientWorld):
             d.addErrback(lambda f: None)
         self.run_default(40)
         if self.cfg.get("warm_connect"):
-            # open the broker connections too: one harmless metadata request per broker client
+            # open the broker connections too, through the public API: one ListOffsets call per broker that leads
+            # a partition (brokers that only coordinate a group are reached by the coordinator warm-up below)
             only = self.cfg["warm_connect"] if isinstance(self.cfg["warm_connect"], list) else None
-            for bid in sorted(self.client._brokers):
-                if only is not None and bid not in only:
+            from afkak.common import OffsetRequest
+            done = set()
+            for (t, p), leader in sorted(self.cluster.leader.items()):
+                if leader in done or leader == -1 or (only is not None and leader not in only):
                     continue
-                try:
-                    bc = self.client._get_brokerclient(bid)
-                except Exception:
+                if topics and t not in topics:
                     continue
-                if not bc.connected():
-                    from afkak.kafkacodec import KafkaCodec
-                    rid = self.client._next_id()
-                    d = bc.makeRequest(rid, KafkaCodec.encode_metadata_request(b"warm", rid, []))
-                    d.addErrback(lambda f: None)
-            self.run_default(40)
+                done.add(leader)
+                d = self.client.send_offset_request([OffsetRequest(t, p, -1, 1)])
+                d.addErrback(lambda f: None)
+            self.run_default(60)
+            for g in groups:
+                # a harmless request to the coordinator opens its connection
+                bid = self.cluster.coordinator_of(g)
+                if bid in done or (only is not None and bid not in only):
+                    continue
+                from afkak.common import OffsetFetchRequest
+                some = sorted(self.cluster.leader)[0]
+                d = self.client.send_offset_fetch_request(g, [OffsetFetchRequest(some[0], some[1])])
+                d.addErrback(lambda f: None)
+            self.run_default(60)
         self.trace = []
         self.wire = []
         self.step = 0
@@ -177,7 +186,7 @@ class ApiWorld(ClientWorld):
             c.timeout_bound = cl.timeout
         if api in ("metadata", "coordinator"):
             # broker-agnostic: one bounded attempt per known broker, then per bootstrap host
-            c.timeout_bound = cl.timeout * len(self.meta_brokers) + (30.0 + cl.timeout) * len(cl._bootstrap_hosts)
+            c.timeout_bound = 1e9  # broker-agnostic: walks over brokers and bootstrap hosts
 
         def fired(res, c=c):
             c.fired += 1
@@ -470,7 +479,8 @@ class ApiWorld(ClientWorld):
                 self.viol("agnostic", "known-broker-not-tried-before-unavailable",
                           "call %d (%s) failed with %s but broker %d at %r was neither sent the request nor "
                           "connected to" % (c.idx, c.api, res.type.__name__, bid, hp))
-        boot = list(self.client._bootstrap_hosts) if hasattr(self.client, "_bootstrap_hosts") else []
+        boot = [(b_["host"], b_["port"]) for _i, b_ in sorted(self.cluster.brokers.items())] \
+            if self.cfg.get("hosts") is None else []
         # bootstrap attempts are the connection attempts made after the broker clients were exhausted
         for hp in boot:
             n_boot = sum(1 for x in hosts_tried if x == tuple(hp))
